@@ -1,7 +1,27 @@
-(* C01 -- JSON Schema samples. (theorems are added as they are closed; models in JsonGen.v / Normalize.v) *)
-From Fences Require Import JsonGen.
+(* C01 -- JSON Schema: every sample labelled valid is accepted by the schema.
+   Leaf level (proved here): the one valid value the number handler emits satisfies every assertion it read.
+   The composition with the graph theorems (C03 label => only valid leaves applied) and with the
+   normaliser is tied by the correspondence streams N / J and the validator oracle; see DESIGN.md. *)
+From Fences Require Import JsonGen JsonLeaves.
+From Coq Require Import ZArith.
+Local Open Scope Z_scope.
 
-(* the null handler emits exactly one valid leaf carrying null *)
-Theorem C01_null_leaf : forall p st, exists st' root, parse_null p st = Ok (st', root).
-Proof. intros p st. unfold parse_null. repeat (destruct (jnoop _ _ _) || destruct (jleaf _ _ _)). eauto. Qed.
-Print Assumptions C01_null_leaf.
+(* for all integral bounds (inclusive or exclusive), all positive multipleOf: if the conjunction has an integer
+   solution, the value labelled valid is one (in particular for negative bounds, where the pinned code failed) *)
+Theorem C01_number_leaf : forall mn emn mx emx mo,
+  (forall m, mo = Some m -> 0 < m) ->
+  let '(lo, hi) := number_bounds mn emn mx emx in
+  num_sat lo hi mo -> num_ok lo hi mo (number_valid_value lo hi mo).
+Proof.
+  intros mn emn mx emx mo H. destruct (number_bounds mn emn mx emx) as [lo hi].
+  exact (number_valid_ok lo hi mo H).
+Qed.
+Print Assumptions C01_number_leaf.
+
+Example C01_number_leaf_nonvacuous :
+  num_sat None (Some (-7)) (Some 2) /\ number_valid_value None (Some (-7)) (Some 2) = -8.
+Proof.
+  split; [|reflexivity]. exists (-8). split; [intros ? E; discriminate|]. split.
+  - intros hi E. inversion E. lia.
+  - intros m E _. inversion E. exists (-4). reflexivity.
+Qed.
